@@ -588,6 +588,7 @@ _A = 'src/emsarray/conventions/arakawa_c.py'
 _U = 'src/emsarray/conventions/ugrid.py'
 _G = 'src/emsarray/conventions/grid.py'
 VARIANTS = [
+    V('C01', 'latitude-name-stored-under-longitude-test', 'src/emsarray/conventions/grid.py', "        if latitude is not None:\n            self.latitude_name = latitude\n", "        if longitude is not None:\n            self.latitude_name = latitude\n", 'R01.9'),
     V('C01', 'mesh-pack-reads-second-position', 'src/emsarray/conventions/ugrid.py', "        return (grid_kind, indexes[0])", "        return (grid_kind, indexes[1])", 'R01.1'),
     V('C01', 'given-latitude-name-not-stored', 'src/emsarray/conventions/grid.py', "        if latitude is not None:\n            self.latitude_name = latitude\n", "        if latitude is None:\n            self.latitude_name = latitude\n", 'R01.9'),
     V('C01', 'given-longitude-name-ignored', 'src/emsarray/conventions/grid.py', "        if longitude is not None:\n            self.longitude_name = longitude\n", "        if longitude is not None:\n            pass\n", 'R01.9'),
